@@ -66,43 +66,52 @@ def numericCase (c : Cc) (t : CcType) (p : Option Bytes) : Cc :=
     let c1 := c.setNum t r.2
     if ¬ r.1 ∨ r.2 < 0 then bad c1 else c1.setMask t true
 
-/-- body of the `while (strListGetItem(...))` loop for one item (`item` = pointer as a suffix, `ilen`) -/
+/-! ### one round of the `while (strListGetItem(...))` loop
+
+An item is the pair (`item` pointer as a suffix of the value, `ilen`). -/
+
+/-- `memchr(item, '=', ilen)` as an offset (`ilen` when absent) -/
+def itemEq (it : Bytes × Nat) : Nat := (it.1.take it.2).idxOf 61
+/-- `nlen`: `if ((p = memchr(item, '=', ilen)) && (p - item < ilen)) nlen = p - item; else nlen = ilen` -/
+def itemNlen (it : Bytes × Nat) : Nat := if itemEq it < it.2 then itemEq it else it.2
+/-- `p` after `++p` (pointer to the argument: the rest of the value), `none` = null pointer -/
+def itemArg (it : Bytes × Nat) : Option Bytes := if itemEq it < it.2 then some (it.1.drop (itemEq it + 1)) else none
+/-- `ccTypeByName(SBuf(item, nlen))` -/
+def itemType (it : Bytes × Nat) : CcType := typeByName (it.1.take (itemNlen it))
+
+/-- the `switch (type)` -/
+def applyDirective (c : Cc) (type : CcType) (p : Option Bytes) (vlen : Nat) (text : Bytes) : Cc :=
+  match type with
+  | .maxAge | .sMaxage | .maxStale | .minFresh | .staleIfError => numericCase c type p
+  | .private_ =>
+    let c1 :=
+      match p with
+      | none => { c with priv := [] }                       -- `private_.clean()`
+      | some start =>
+        match parseQuoted start vlen with
+        | some v => { c with priv := c.priv ++ v }          -- `private_.append(temp)`
+        | none => c
+    c1.setMask type true   -- "always remember the 'private' part"
+  | .noCache =>
+    match p with
+    | none => { c.setMask type true with noCache := [] }
+    | some start =>
+      match parseQuoted start vlen with
+      | some v => { c.setMask type true with noCache := c.noCache ++ v }
+      | none => c
+  | .public_ | .noStore | .noTransform | .mustRevalidate | .proxyRevalidate | .onlyIfCached | .immutable =>
+    c.setMask type true
+  | .other =>
+    -- `if (other.size()) other.append(", "); other.append(item, ilen);`
+    { c with other := (if c.other.length ≠ 0 then c.other ++ [44, 32] else c.other) ++ text }
+  | .enumEnd => c   -- `default:`
+
+/-- body of the loop for one item -/
 def stepItem (c : Cc) (it : Bytes × Nat) : Cc :=
-  let item := it.1
-  let ilen := it.2
-  -- `if ((p = memchr(item, '=', ilen)) && (p - item < ilen)) { nlen = p - item; ++p } else nlen = ilen`
-  let eq := (item.take ilen).idxOf 61
-  let hasEq := eq < ilen
-  let nlen := if hasEq then eq else ilen
-  let p : Option Bytes := if hasEq then some (item.drop (eq + 1)) else none
-  let type := typeByName (item.take nlen)
+  let type := itemType it
   -- `if (isSet(type)) { if (type != CC_OTHER) continue; }`
   if c.isSet type ∧ type ≠ .other then c
-  else
-    match type with
-    | .maxAge | .sMaxage | .maxStale | .minFresh | .staleIfError => numericCase c type p
-    | .private_ =>
-      let c1 :=
-        match p with
-        | none => { c with priv := [] }                       -- `private_.clean()`
-        | some start =>
-          match parseQuoted start (ilen - nlen - 1) with
-          | some v => { c with priv := c.priv ++ v }          -- `private_.append(temp)`
-          | none => c
-      c1.setMask type true
-    | .noCache =>
-      match p with
-      | none => { c.setMask type true with noCache := [] }
-      | some start =>
-        match parseQuoted start (ilen - nlen - 1) with
-        | some v => { c.setMask type true with noCache := c.noCache ++ v }
-        | none => c
-    | .public_ | .noStore | .noTransform | .mustRevalidate | .proxyRevalidate | .onlyIfCached | .immutable =>
-      c.setMask type true
-    | .other =>
-      -- `if (other.size()) other.append(", "); other.append(item, ilen);`
-      { c with other := (if c.other.length ≠ 0 then c.other ++ [44, 32] else c.other) ++ item.take ilen }
-    | .enumEnd => c   -- `default:`
+  else applyDirective c type (itemArg it) (it.2 - itemNlen it - 1) (it.1.take it.2)
 
 /-- state after `HttpHdrCc::parse(str)` on a freshly constructed object -/
 def parseFrom (c : Cc) (s : Bytes) : Cc := (items s).foldl stepItem c
